@@ -465,4 +465,304 @@ theorem arr_step {τ} (k : Kind) (hk : k ≠ .fast) (data : Bytes) (h : Handler 
             simp [machine, step, afterTr, hnws, h44', h93']
           exact Outcome.of_errTr k .arr data h fuel' _ _ _ p' b rest rfl hat1 hstep _ _
 
+/-! ### objects -/
+
+/-- after the key and whitespace: colon, value, rest of the object -/
+def colonThen (mdv : Option Nat) (sf depth : Nat) : List UInt8 → Option (List UInt8)
+  | 58 :: r2 =>
+    match scanValue mdv sf depth (skipWs r2) with
+    | none => none
+    | some r3 => scanObj mdv sf depth false r3
+  | _ => none
+
+/-- after the opening quote of a key: key, colon, value, rest of the object -/
+def memberThen (mdv : Option Nat) (sf depth : Nat) (krest : List UInt8) : Option (List UInt8) :=
+  match scanStringBody krest with
+  | none => none
+  | some r1 => colonThen mdv sf depth (skipWs r1)
+
+theorem colonThen_58 (mdv : Option Nat) (sf depth : Nat) (r2 : List UInt8) :
+    colonThen mdv sf depth (58 :: r2) =
+      match scanValue mdv sf depth (skipWs r2) with
+      | none => none
+      | some r3 => scanObj mdv sf depth false r3 := rfl
+
+theorem colonThen_other (mdv : Option Nat) (sf depth : Nat) (b : UInt8) (rest : List UInt8) (hb : b ≠ 58) :
+    colonThen mdv sf depth (b :: rest) = none := by
+  simp only [colonThen]
+  split
+  · next heq => injection heq with h1 _; exact absurd h1 hb
+  · rfl
+
+theorem colonThen_nil (mdv : Option Nat) (sf depth : Nat) : colonThen mdv sf depth [] = none := rfl
+
+def objKey (mdv : Option Nat) (sf depth : Nat) : List UInt8 → Option (List UInt8)
+  | 34 :: krest => memberThen mdv sf depth krest
+  | _ => none
+
+theorem objKey_34 (mdv : Option Nat) (sf depth : Nat) (krest : List UInt8) :
+    objKey mdv sf depth (34 :: krest) = memberThen mdv sf depth krest := rfl
+
+theorem objKey_other (mdv : Option Nat) (sf depth : Nat) (b : UInt8) (rest : List UInt8) (hb : b ≠ 34) :
+    objKey mdv sf depth (b :: rest) = none := by
+  simp only [objKey]
+  split
+  · next heq => injection heq with h1 _; exact absurd h1 hb
+  · rfl
+
+theorem objKey_nil (mdv : Option Nat) (sf depth : Nat) : objKey mdv sf depth [] = none := rfl
+
+theorem scanObj_succ (mdv : Option Nat) (sf depth : Nat) (first : Bool) (l : List UInt8) :
+    scanObj mdv (sf + 1) depth first l =
+      match skipWs l with
+      | [] => none
+      | b :: rest =>
+        if b == 125 then some rest
+        else if first then objKey mdv sf depth (b :: rest)
+        else if b == 44 then objKey mdv sf depth (skipWs rest) else none := by
+  simp only [scanObj]
+  cases skipWs l with
+  | nil => rfl
+  | cons b rest =>
+    simp only []
+    by_cases h125 : (b == 125) = true
+    · simp only [h125, if_true]
+    · simp only [h125, Bool.false_eq_true, if_false]
+      cases first with
+      | true =>
+        simp only [if_true]
+        by_cases hb : b = 34
+        · subst hb; rfl
+        · rw [objKey_other mdv sf depth b rest hb]
+          split
+          · next heq => injection heq with heq; injection heq with h1 _; exact absurd h1 hb
+          · rfl
+      | false =>
+        simp only [Bool.false_eq_true, if_false]
+        by_cases h44 : (b == 44) = true
+        · simp only [h44, if_true]
+          generalize skipWs rest = x
+          cases x with
+          | nil => rfl
+          | cons d t =>
+            by_cases hd : d = 34
+            · subst hd; rfl
+            · rw [objKey_other mdv sf depth d t hd]
+              split
+              · next heq => injection heq with heq; injection heq with h1 _; exact absurd h1 hd
+              · rfl
+        · simp only [h44, Bool.false_eq_true, if_false]
+
+theorem key_step (k : Kind) (t : Tok) (b : UInt8) :
+    (machine k).step ⟨.obj, .key t⟩ b = strTr k .obj .key ⟨.obj, .afterKey⟩ t b := rfl
+
+/-- a value inside an object, then the rest of the object -/
+theorem obj_value_then {τ} (k : Kind) (hk : k ≠ .fast) (data : Bytes) (h : Handler τ) (sf : Nat)
+    (hV : ValueGoal k data h sf) (hO : ObjGoal k data h sf)
+    (s : AS) (b : UInt8) (rest : List UInt8) (hstep : (machine k).step s b = startValue k .obj b)
+    (fuel p : Nat) (ret : AS) (st : List AS) (r : Regs τ) (hat : At data p (b :: rest)) (hp : r.p = p) (herr : r.err = none)
+    (hf : (b :: rest).length + 1 ≤ fuel) (hsf : 2 * (b :: rest).length ≤ sf) :
+    Outcome (machine k) data h fuel s (ret :: st) r
+      (match scanValue (md k) sf (st.length + 1) (b :: rest) with
+        | none => none
+        | some r1 => scanObj (md k) sf (st.length + 1) false r1) ret st := by
+  have key := hV .obj (vctx_obj k hk) s b rest hstep fuel p (ret :: st) r hat hp herr hf hsf
+  simp only [List.length_cons] at key
+  cases hsv : scanValue (md k) sf (st.length + 1) (b :: rest) with
+  | none => rw [hsv] at key; exact key
+  | some r1 =>
+    rw [hsv] at key
+    simp only [Outcome] at key
+    simp only []
+    apply Outcome.after_reach key
+    intro f2 p2 hat2 hf2
+    have hlt := (scan_progress (md k) sf).1 _ _ _ hsv
+    have := hO false r1 f2 p2 ret st { r with p := (p2 : Int) } hat2 rfl herr hf2 (by simp only [List.length_cons] at hlt hsf; omega)
+    simpa using this
+
+/-- from inside a key string: key, colon, value, rest of the object -/
+theorem obj_member_then {τ} (k : Kind) (hk : k ≠ .fast) (data : Bytes) (h : Handler τ) (hsm : Small data) (sf : Nat)
+    (hV : ValueGoal k data h sf) (hO : ObjGoal k data h sf)
+    (krest : List UInt8) (fuel p : Nat) (ret : AS) (st : List AS) (r : Regs τ) (hat : At data p krest) (hp : r.p = p)
+    (herr : r.err = none) (hf : krest.length + 1 ≤ fuel) (hsf : 2 * krest.length ≤ sf) :
+    Outcome (machine k) data h fuel ⟨.obj, .key .str⟩ (ret :: st) r (memberThen (md k) sf (st.length + 1) krest) ret st := by
+  have key := str_run k .obj .key ⟨.obj, .afterKey⟩ (fun t b _ => key_step k t b) (fun t _ => rfl)
+    data h hsm krest .str rfl fuel p (ret :: st) r hat hp hf
+  rw [strScanT_str] at key
+  simp only [memberThen]
+  cases hs : scanStringBody krest with
+  | none => rw [hs] at key; exact key
+  | some r1 =>
+    rw [hs] at key
+    simp only [] at key ⊢
+    have hl1 := scanStringBody_length_lt _ _ hs
+    apply Outcome.after_reach key
+    intro f1 p1 hat1 hf1
+    have hws : ∀ b, isWs b = true → (machine k).step ⟨.obj, .afterKey⟩ b = ([], some ⟨.obj, .afterKey⟩) := by
+      intro b hw; simp [machine, step, hw]
+    have hr := ws_loop (machine k) _ hws data h hsm r1 f1 p1 (ret :: st) ({ r with p := (p1 : Int) } : Regs τ) hat1 rfl hf1
+    apply Outcome.after_reach hr
+    intro f2 p2 hat2 hf2
+    have hlen2 := skipWs_length_le' r1
+    cases hsk : skipWs r1 with
+    | nil =>
+      rw [hsk] at hat2
+      rw [colonThen_nil]
+      exact Outcome.of_eof k data h f2 _ _ _ p2 rfl hat2 rfl _ _
+    | cons b2 r2 =>
+      rw [hsk] at hat2 hf2 hlen2
+      have hnws := skipWs_cons_of r1 b2 r2 hsk
+      obtain ⟨f2, rfl⟩ : ∃ f, f2 = f + 1 := ⟨f2 - 1, by omega⟩
+      obtain ⟨hb2, _, hat2'⟩ := hat2.cons_inv
+      have hf2' : r2.length + 1 ≤ f2 := by simp only [List.length_cons] at hf2; omega
+      by_cases h58 : b2 = 58
+      · subst h58
+        rw [colonThen_58]
+        have hstep : (machine k).step ⟨.obj, .afterKey⟩ 58 = ([], some ⟨.obj, .want false⟩) := by
+          simp [machine, step, isWs]
+        apply Outcome.of_goto (machine k) data h hsm f2 _ _ _ _ p2 58 r2 rfl hat2 hstep
+        have hws3 : ∀ b, isWs b = true → (machine k).step ⟨.obj, .want false⟩ b = ([], some ⟨.obj, .want false⟩) := by
+          intro b hw; simp [machine, step, hw]
+        have hr3 := ws_loop (machine k) _ hws3 data h hsm r2 f2 (p2 + 1) (ret :: st)
+          ({ r with p := ((p2 + 1 : Nat) : Int) } : Regs τ) hat2' rfl hf2'
+        apply Outcome.after_reach hr3
+        intro f3 p3 hat3 hf3
+        have hlen3 := skipWs_length_le' r2
+        cases hsk3 : skipWs r2 with
+        | nil =>
+          rw [hsk3] at hat3
+          rw [scanValue_nil]
+          exact Outcome.of_eof k data h f3 _ _ _ p3 rfl hat3 rfl _ _
+        | cons d t =>
+          rw [hsk3] at hat3 hf3 hlen3
+          have hnws3 := skipWs_cons_of r2 d t hsk3
+          have hstep3 : (machine k).step ⟨.obj, .want false⟩ d = startValue k .obj d := by
+            simp [machine, step, hnws3]
+          exact obj_value_then k hk data h sf hV hO _ d t hstep3 f3 p3 ret st _ hat3 rfl herr hf3
+            (by simp only [List.length_cons] at hlen3 hlen2 ⊢; omega)
+      · rw [colonThen_other _ _ _ b2 r2 h58]
+        have h58' : (b2 == 58) = false := by simpa using h58
+        have hstep : (machine k).step ⟨.obj, .afterKey⟩ b2 = errTr k .obj := by
+          simp [machine, step, hnws, h58']
+        exact Outcome.of_errTr k .obj data h f2 _ _ _ p2 b2 r2 rfl hat2 hstep _ _
+
+/-- a key is expected at `l` (whitespace skipped): the quote, then the member -/
+theorem obj_key_then {τ} (k : Kind) (hk : k ≠ .fast) (data : Bytes) (h : Handler τ) (hsm : Small data) (sf : Nat)
+    (hV : ValueGoal k data h sf) (hO : ObjGoal k data h sf) (first : Bool)
+    (b : UInt8) (rest : List UInt8) (hnws : isWs b = false) (h125 : first = true → (b == 125) = false)
+    (fuel p : Nat) (ret : AS) (st : List AS) (r : Regs τ) (hat : At data p (b :: rest)) (hp : r.p = p)
+    (herr : r.err = none) (hf : (b :: rest).length + 1 ≤ fuel) (hsf : 2 * (b :: rest).length ≤ sf) :
+    Outcome (machine k) data h fuel ⟨.obj, .wantKey first⟩ (ret :: st) r (objKey (md k) sf (st.length + 1) (b :: rest)) ret st := by
+  obtain ⟨fuel, rfl⟩ : ∃ f, fuel = f + 1 := ⟨fuel - 1, by omega⟩
+  obtain ⟨hb, _, hat'⟩ := hat.cons_inv
+  by_cases h34 : b = 34
+  · subst h34
+    rw [objKey_34]
+    have hstep : (machine k).step ⟨.obj, .wantKey first⟩ 34 = ([], some ⟨.obj, .key .str⟩) := by
+      simp [machine, step, isWs]
+    apply Outcome.of_goto (machine k) data h hsm fuel _ _ _ _ p 34 rest hp hat hstep
+    exact obj_member_then k hk data h hsm sf hV hO rest fuel (p + 1) ret st _ hat' rfl herr
+      (by simp only [List.length_cons] at hf; omega) (by simp only [List.length_cons] at hsf; omega)
+  · rw [objKey_other _ _ _ b rest h34]
+    have h34' : (b == 34) = false := by simpa using h34
+    have hstep : (machine k).step ⟨.obj, .wantKey first⟩ b = errTr k .obj := by
+      cases first with
+      | true => simp [machine, step, hnws, h34', h125 rfl]
+      | false => simp [machine, step, hnws, h34']
+    exact Outcome.of_errTr k .obj data h fuel _ _ _ p b rest hp hat hstep _ _
+
+theorem obj_step {τ} (k : Kind) (hk : k ≠ .fast) (data : Bytes) (h : Handler τ) (hsm : Small data) (sf : Nat)
+    (hV : ValueGoal k data h sf) (hO : ObjGoal k data h sf) : ObjGoal k data h (sf + 1) := by
+  intro first l fuel p ret st r hat hp herr hf hsf
+  rw [scanObj_succ]
+  have hws : ∀ b, isWs b = true → (machine k).step ⟨.obj, if first then .wantKey true else .after⟩ b =
+      ([], some ⟨.obj, if first then .wantKey true else .after⟩) := by
+    intro b hw
+    cases first <;> simp [machine, step, afterTr, hw]
+  have hnf : isFinal ⟨.obj, if first then .wantKey true else .after⟩ = false := by cases first <;> rfl
+  have hr := ws_loop (machine k) _ hws data h hsm l fuel p (ret :: st) r hat hp hf
+  apply Outcome.after_reach hr
+  intro fuel' p' hat1 hf1
+  have hlen := skipWs_length_le' l
+  cases hsk : skipWs l with
+  | nil =>
+    rw [hsk] at hat1
+    exact Outcome.of_eof k data h fuel' _ _ _ p' rfl hat1 hnf _ _
+  | cons b rest =>
+    rw [hsk] at hat1 hf1 hlen
+    have hnws := skipWs_cons_of l b rest hsk
+    simp only []
+    simp only [List.length_cons] at hlen
+    by_cases h125 : (b == 125) = true
+    · have hb125 : b = 125 := by simpa using h125
+      subst hb125
+      obtain ⟨fuel', rfl⟩ : ∃ f, fuel' = f + 1 := ⟨fuel' - 1, by omega⟩
+      obtain ⟨hb, hlt, hat'⟩ := hat1.cons_inv
+      have hf' : rest.length + 1 ≤ fuel' := by simp only [List.length_cons] at hf1; omega
+      simp only [beq_self_eq_true, if_true]
+      have hstep : (machine k).step ⟨.obj, if first then .wantKey true else .after⟩ 125 = ([.ret], some ⟨.obj, .done⟩) := by
+        cases first <;> simp [machine, step, afterTr, isWs]
+      simp only [Outcome]
+      unfold Reach
+      rw [contL_cons (machine k) data h _ _ _ _ p' 125 rest rfl hat1,
+        loopL_ret (machine k) data h fuel' _ _ ret st _ p' 125 rest hsm rfl hat1 hstep]
+      exact ⟨fuel', p' + 1, hat', hf', rfl⟩
+    · have h125' : (b == 125) = false := by simpa using h125
+      simp only [h125', Bool.false_eq_true, if_false]
+      cases first with
+      | true =>
+        simp only [if_true]
+        exact obj_key_then k hk data h hsm sf hV hO true b rest hnws (fun _ => h125') fuel' p' ret st _ hat1 rfl herr hf1
+          (by simp only [List.length_cons]; omega)
+      | false =>
+        simp only [Bool.false_eq_true, if_false]
+        obtain ⟨fuel', rfl⟩ : ∃ f, fuel' = f + 1 := ⟨fuel' - 1, by omega⟩
+        obtain ⟨hb, hlt, hat'⟩ := hat1.cons_inv
+        have hf' : rest.length + 1 ≤ fuel' := by simp only [List.length_cons] at hf1; omega
+        by_cases h44 : (b == 44) = true
+        · have hb44 : b = 44 := by simpa using h44
+          subst hb44
+          simp only [beq_self_eq_true, if_true]
+          have hstep : (machine k).step ⟨.obj, .after⟩ 44 = ([], some ⟨.obj, .wantKey false⟩) := by
+            simp [machine, step, afterTr, isWs]
+          apply Outcome.of_goto (machine k) data h hsm fuel' _ _ _ _ p' 44 rest rfl hat1 hstep
+          have hws2 : ∀ b, isWs b = true → (machine k).step ⟨.obj, .wantKey false⟩ b = ([], some ⟨.obj, .wantKey false⟩) := by
+            intro b hw
+            simp [machine, step, hw]
+          have hr2 := ws_loop (machine k) _ hws2 data h hsm rest fuel' (p' + 1) (ret :: st)
+            ({ r with p := ((p' + 1 : Nat) : Int) } : Regs τ) hat' rfl hf'
+          apply Outcome.after_reach hr2
+          intro f3 p3 hat3 hf3
+          have hlen3 := skipWs_length_le' rest
+          cases hsk3 : skipWs rest with
+          | nil =>
+            rw [hsk3] at hat3
+            rw [objKey_nil]
+            exact Outcome.of_eof k data h f3 _ _ _ p3 rfl hat3 rfl _ _
+          | cons d t =>
+            rw [hsk3] at hat3 hf3 hlen3
+            have hnws3 := skipWs_cons_of rest d t hsk3
+            exact obj_key_then k hk data h hsm sf hV hO false d t hnws3 (fun hh => by cases hh) f3 p3 ret st _ hat3 rfl herr hf3
+              (by simp only [List.length_cons] at hlen3 ⊢; omega)
+        · have h44' : (b == 44) = false := by simpa using h44
+          simp only [h44', Bool.false_eq_true, if_false]
+          have hstep : (machine k).step ⟨.obj, .after⟩ b = errTr k .obj := by
+            simp [machine, step, afterTr, hnws, h44', h125']
+          exact Outcome.of_errTr k .obj data h fuel' _ _ _ p' b rest rfl hat1 hstep _ _
+
+/-- the three statements for every scanner fuel -/
+theorem skip_goals {τ} (k : Kind) (hk : k ≠ .fast) (data : Bytes) (h : Handler τ) (hsm : Small data) :
+    ∀ sf, ValueGoal k data h sf ∧ ArrGoal k data h sf ∧ ObjGoal k data h sf := by
+  intro sf
+  induction sf with
+  | zero =>
+    refine ⟨?_, ?_, ?_⟩
+    · intro c _ s b rest _ fuel p st r _ _ _ _ hsf
+      simp only [List.length_cons] at hsf; omega
+    · intro first l fuel p ret st r _ _ _ _ hsf; omega
+    · intro first l fuel p ret st r _ _ _ _ hsf; omega
+  | succ sf ih =>
+    obtain ⟨hV, hA, hO⟩ := ih
+    exact ⟨value_step k hk data h hsm sf hA hO, arr_step k hk data h hsm sf hV hA, obj_step k hk data h hsm sf hV hO⟩
+
 end RJson.Abs
